@@ -138,6 +138,8 @@ def check_C08(run):
         # the emitted test program did not compile or died: a bug of the harness' emitter, or a crash inside the
         # generated code / library
         f = json.loads(fails[0])
+        if "panic: harness:" in f.get("stderr", ""):
+            raise Inconclusive("the emitted test program hit a harness limitation: " + f["stderr"][:1200])
         if "panic" in f.get("stderr", "") and ("verifgen/p" in f["stderr"] or "github.com/varlink/go" in f["stderr"]):
             run.violation("the generated stubs / library crashed while running program %s: %s" % (f.get("prog"), f["stderr"][:800]), {"kind": "crash", "event": f})
         else:
